@@ -104,13 +104,13 @@ def main() -> int:
             rep.violation(f"TLC: {res.violated} violated on tier {t} (dialect conversion model)", {"tlc": res.error_trace[:60], "prints": res.prints[:3]})
             continue
         header, cases = replay_deser.parse_emitted(res.prints)
-        cases = [c for c in cases if not c["opts"]["fbd"] and c["opts"]["aliname"] == "id" and not c["opts"]["coerce"]]
+        cases = [c for c in cases if not c["opts"]["fbd"] and not c["opts"]["coerce"]]
         u = replay_deser.Universe(header, [c["type"] for c in cases])
-        keyed = sorted(cases, key=lambda c: json.dumps([c["type"], c["opts"]["addl"]], sort_keys=True))
+        keyed = sorted(cases, key=lambda c: json.dumps([c["type"], c["opts"]["addl"], c["opts"]["aliname"]], sort_keys=True))
         last = None
         vals: Dict[str, Any] = {}
         for c in keyed:
-            skey = json.dumps([c["type"], c["opts"]["addl"]], sort_keys=True)
+            skey = json.dumps([c["type"], c["opts"]["addl"], c["opts"]["aliname"]], sort_keys=True)
             if skey != last:
                 last = skey
                 apischema.cache.reset()
@@ -118,12 +118,22 @@ def main() -> int:
                 u._types.clear()
                 tp = u.type(c["type"])
                 addl = c["opts"]["addl"]
+                akw = {k: v for k, v in replay_deser.kwargs_of(u, c["opts"]).items() if k == "aliaser"}
                 vals = {}
                 try:
-                    base = deserialization_schema(tp, additional_properties=addl)
+                    # OpenAPI 3.1 first, then 3.0: both have no $schema of their own, neither may take the other's conversion
+                    sch31 = deserialization_schema(tp, additional_properties=addl, version=JsonSchemaVersion.OPEN_API_3_1, **akw)
+                    base = deserialization_schema(tp, additional_properties=addl, **akw)
+                    # OpenAPI 3.1 IS draft 2020-12 (no $schema, definitions under components)
+                    base_refs = deserialization_schema(tp, additional_properties=addl, all_refs=True, **akw)   # OpenAPI versions default to all_refs
+                    want31 = json.loads(json.dumps({k: v for k, v in base_refs.items() if k not in ("$schema", "$defs")})
+                                        .replace("#/$defs/", "#/components/schemas/"))
+                    if sch31 != want31:
+                        rep.violation(f"OpenAPI 3.1 schema of {bridge.type_expr(c['type'])} is not the draft 2020-12 one: {json.dumps(sch31)[:200]}",
+                                      {"type": bridge.type_expr(c["type"]), "schema_3_1": sch31, "expected": want31})
                     vals["2020-12"] = jsonschema.Draft202012Validator(base)
                     for vname, (ver, vcls) in versions.items():
-                        sch = deserialization_schema(tp, additional_properties=addl, version=ver)
+                        sch = deserialization_schema(tp, additional_properties=addl, version=ver, **akw)
                         bad: set = set()
                         refs: list = []
                         walk(sch, vname, bad, refs)
@@ -136,7 +146,7 @@ def main() -> int:
                                 rep.violation(f"{vname} schema of {bridge.type_expr(c['type'])} has reference '{r}' without the prefix {PREFIX[vname]}",
                                               {"type": bridge.type_expr(c["type"]), "version": vname, "schema": sch})
                         if vname == "oas30":
-                            defs = definitions_schema(deserialization=[tp], version=ver, additional_properties=addl)
+                            defs = definitions_schema(deserialization=[tp], version=ver, additional_properties=addl, **akw)
                             doc = {"components": {"schemas": {k: oas30_to_2020(v) for k, v in defs.items()}}, "root": oas30_to_2020(sch)}
                             doc["$ref"] = "#/root"
                             vals[vname] = vcls(doc)
